@@ -173,24 +173,28 @@ Section Monitor.
     o <> OOutOfFuel -> mstep m (IOb o) = Some m' -> mrun m (IOb o :: l) = mrun m' l.
   Proof. intros o l m m' Hnf H. cbn [mrun]. destruct o; try (rewrite H; reflexivity). contradiction Hnf. reflexivity. Qed.
 
-  Variable Rel : option oevent -> ostate -> M -> Prop.
+  (* Rin ev: what holds while the step for event ev runs; Rout: what holds between steps.  The start-up
+     run counts as the step of a wake-up by the database. *)
+  Variable Rin : oevent -> ostate -> M -> Prop.
+  Variable Rout : ostate -> M -> Prop.
   Variable m0 : M.
-  Hypothesis Hinit : forall sel op iin a, Rel None (upd_answers (ostate_init cfg sel op iin) a) m0.
-  Hypothesis Hstep : forall e s o s' m,
-    ustep cfg e s o s' -> Inv cfg s -> Rel e s m ->
-    o = [OOutOfFuel] \/ exists m', mrun m (map IOb o) = Live m' /\ Rel e s' m'.
+  Hypothesis Hinit : forall sel op iin a, Rin EDbChange (upd_answers (ostate_init cfg sel op iin) a) m0.
+  Hypothesis Hstep : forall ev s o s' m,
+    ustep cfg (Some ev) s o s' -> Inv cfg s -> Rin ev s m ->
+    o = [OOutOfFuel] \/ exists m', mrun m (map IOb o) = Live m' /\ Rin ev s' m'.
   Hypothesis Hev : forall s m ev,
-    ev_ok ev -> good s -> Inv cfg s -> Rel None s m ->
-    exists m', mstep m (IEv (s_now s) ev) = Some m' /\ Rel (Some ev) s m'.
-  Hypothesis Hend : forall ev s m, Rel (Some ev) s m -> Rel None s m.
+    ev_ok ev -> good s -> Inv cfg s -> Rout s m ->
+    exists m', mstep m (IEv (s_now s) ev) = Some m' /\ Rin ev s m'.
+  Hypothesis Hend : forall ev s m, Rin ev s m -> good s -> Rout s m.
   Hypothesis Hnow : forall ev s m t,
-    Inv cfg s -> Rel (Some ev) s m -> quiet_until cfg s t -> Rel (Some ev) (upd_now s t) m.
+    Inv cfg s -> Rin ev s m -> quiet_until cfg s t -> good s -> Rout (upd_now s t) m.
 
-  Lemma micros_run : forall e s o s', micros cfg e s o s' -> forall m, Inv cfg s -> Rel e s m ->
-    mrun m (map IOb o) = Dead \/ exists m', mrun m (map IOb o) = Live m' /\ Rel e s' m'.
+  Lemma micros_run : forall ev s o s', micros cfg (Some ev) s o s' -> forall m, Inv cfg s -> Rin ev s m ->
+    mrun m (map IOb o) = Dead \/ exists m', mrun m (map IOb o) = Live m' /\ Rin ev s' m'.
   Proof.
-    induction 1 as [s|s o1 s1 o2 s2 o Hm Hms IH Ho]; intros m Hi Hr; [right; exists m; split; [reflexivity|exact Hr]|].
-    apply micro_ustep in Hm. subst o. rewrite map_app, mrun_app.
+    intros ev s o s' H. remember (Some ev) as e eqn:He.
+    induction H as [s|s o1 s1 o2 s2 o Hm Hms IH Ho]; intros m Hi Hr; [right; exists m; split; [reflexivity|exact Hr]|].
+    subst e. apply micro_ustep in Hm. subst o. rewrite map_app, mrun_app.
     destruct (Hstep _ _ _ _ _ Hm Hi Hr) as [-> |(m1 & Hm1 & Hr1)]; [left; reflexivity|].
     rewrite Hm1. apply IH; [eapply ustep_inv; eauto|exact Hr1].
   Qed.
@@ -199,14 +203,18 @@ Section Monitor.
   Proof. intros o H Hin. apply H. apply in_map_iff. exists OOutOfFuel. split; [reflexivity|exact Hin]. Qed.
 
   Theorem trace_run : forall s tr, Trace cfg s tr ->
-    mrun m0 tr = Dead \/ exists m, mrun m0 tr = Live m /\ Rel None s m /\ good s.
+    mrun m0 tr = Dead \/ exists m, mrun m0 tr = Live m /\ Rout s m /\ good s.
   Proof.
     induction 1 as [sel op iin a s o H|s tr ev a s' o Ht IH Hok H].
-    - pose proof (ostart_good _ _ _ _ _ _ _ H) as Hg. apply ostart_micros in H.
-      destruct (micros_run _ _ _ _ H m0 (inv_init _ _ _ _ _) (Hinit _ _ _ _)) as [Hd|(m & Hm & Hr)]; [left; exact Hd|].
-      right. exists m. split; [exact Hm|]. split; [exact Hr|].
-      destruct Hg as [Hf|Hg]; [|exact Hg]. exfalso.
-      apply mrun_live_nofuel in Hm. apply nofuel_map in Hm. contradiction.
+    - pose proof (ostart_good _ _ _ _ _ _ _ H) as Hg.
+      assert (Hms : micros cfg (Some EDbChange) (upd_answers (ostate_init cfg sel op iin) a) o s).
+      { unfold ostart in H. eapply idle_loop_micros; [reflexivity|exact H]. }
+      destruct (micros_run _ _ _ _ Hms m0 (inv_init _ _ _ _ _) (Hinit _ _ _ _)) as [Hd|(m & Hm & Hr)]; [left; exact Hd|].
+      right. exists m. split; [exact Hm|].
+      assert (Hg2 : good s).
+      { destruct Hg as [Hf|Hg]; [|exact Hg]. exfalso.
+        apply mrun_live_nofuel in Hm. apply nofuel_map in Hm. contradiction. }
+      split; [eapply Hend; eauto|exact Hg2].
     - rewrite mrun_app. destruct IH as [Hd|(m & Hm & Hr & Hg)]; [left; rewrite Hd; reflexivity|].
       rewrite Hm. pose proof (trace_inv _ _ _ Ht) as Hi.
       destruct (Hev s m ev Hok Hg Hi Hr) as (m1 & Hm1 & Hr1).
@@ -216,9 +224,10 @@ Section Monitor.
       destruct (micros_run _ _ _ _ Hms m1 Hi Hr1) as [Hd|(m2 & Hm2 & Hr2)]; [left; exact Hd|].
       right. exists m2. split; [exact Hm2|].
       pose proof Hm2 as Hnf. apply mrun_live_nofuel in Hnf. apply nofuel_map in Hnf.
-      split; [|destruct Hg' as [Hf|Hg']; [contradiction|exact Hg']].
-      destruct Hs as [-> |(t & -> & [Hf|Hq])]; [eapply Hend; exact Hr2|contradiction|].
-      eapply Hend. apply Hnow; [eapply micros_ind_inv; eauto|exact Hr2|exact Hq].
+      assert (Hg2 : good s') by (destruct Hg' as [Hf|Hg']; [contradiction|exact Hg']).
+      split; [|exact Hg2].
+      destruct Hs as [-> |(t & -> & [Hf|Hq])]; [eapply Hend; [exact Hr2|exact Hg2]|contradiction|].
+      eapply Hnow; [eapply micros_ind_inv; eauto|exact Hr2|exact Hq|exact Hg2].
   Qed.
 End Monitor.
 
@@ -273,7 +282,7 @@ Definition null_mon (m : bool * N) (it : item) : option (bool * N) :=
   | _ => Some m
   end.
 
-Definition null_rel (e : option oevent) (s : ostate) (m : bool * N) : Prop :=
+Definition null_rel (s : ostate) (m : bool * N) : Prop :=
   fst m = false -> s_unsol s = UNullRequired /\ s_unsol_seq s = snd m /\ snd m < 16.
 
 Lemma qob_not_fuel : forall o, qob o -> o <> OOutOfFuel.
@@ -304,8 +313,8 @@ Lemma response_bytes_len : forall r buf, r_size r = 0%nat -> length (response_by
 Proof. intros r buf H. unfold response_bytes. rewrite H. reflexivity. Qed.
 
 Lemma null_hstep : forall cfg e s o s' m,
-  ustep cfg e s o s' -> Inv cfg s -> null_rel e s m ->
-  o = [OOutOfFuel] \/ exists m', mrun null_mon m (map IOb o) = Live m' /\ null_rel e s' m'.
+  ustep cfg e s o s' -> Inv cfg s -> null_rel s m ->
+  o = [OOutOfFuel] \/ exists m', mrun null_mon m (map IOb o) = Live m' /\ null_rel s' m'.
 Proof.
   intros cfg e s o s' [conf q] H [Hl Hw] Hr. unfold null_rel in *. cbn [fst snd] in *.
   assert (Hskip : forall l, Forall qob l -> forall m, mrun null_mon m (map IOb l) = Live m).
@@ -321,10 +330,11 @@ Proof.
       erewrite mrun_cons; [|discriminate|cbn [null_mon]; unfold is_unsol; rewrite nth1_response_bytes, Hf; reflexivity].
       reflexivity.
     + destruct (Hr eq_refl) as (A & B & C). exists (false, seq16_next q). split.
-      * erewrite mrun_cons; [reflexivity|discriminate|].
-        cbn [null_mon]. unfold is_unsol. rewrite nth1_response_bytes, Hf. cbn [N.eqb Pos.eqb].
-        rewrite response_bytes_len by exact Hsz. rewrite nth0_response_bytes, Hctl, B, uns_ctl_val by exact C.
-        rewrite N.eqb_refl. reflexivity.
+      * erewrite mrun_cons; [|discriminate|]; cycle 1.
+        { cbn [null_mon]. unfold is_unsol. rewrite nth1_response_bytes, Hf. cbn [N.eqb Pos.eqb].
+          rewrite response_bytes_len by exact Hsz. rewrite nth0_response_bytes, Hctl, B, uns_ctl_val by exact C.
+          rewrite N.eqb_refl. reflexivity. }
+        reflexivity.
       * cbn [fst snd]. intros _. split; [congruence|]. split; [congruence|apply seq16_next_lt].
   - (* data: only after a confirmation *) right. destruct conf; [|destruct (Hr eq_refl) as (A & _); congruence].
     exists (true, q). split; [|discriminate]. subst o.
@@ -358,11 +368,67 @@ Theorem null_until_confirmed_mon : forall cfg s tr,
   Trace cfg s tr -> mrun null_mon (false, 0) tr <> Bad.
 Proof.
   intros cfg s tr Ht.
-  destruct (trace_run cfg _ null_mon null_rel (false, 0)) with (s := s) (tr := tr) as [Hd|(m & Hm & _)];
+  destruct (trace_run cfg _ null_mon (fun _ => null_rel) null_rel (false, 0)) with (s := s) (tr := tr)
+    as [Hd|(m & Hm & _)];
     try (rewrite Hd; discriminate); try (rewrite Hm; discriminate); try exact Ht.
-  - intros sel op iin a _. repeat split. reflexivity.
-  - apply null_hstep.
+  - intros sel op iin a _. split; [reflexivity|split; reflexivity].
+  - intros ev x o x' m. apply null_hstep.
   - intros x [conf q] ev _ _ _ Hr. exists (conf, q). split; [reflexivity|exact Hr].
-  - intros ev x m Hr. exact Hr.
-  - intros ev x m t _ Hr _. exact Hr.
+  - intros ev x m Hr _. exact Hr.
+  - intros ev x m t _ Hr _ _. exact Hr.
+Qed.
+
+(* in plain terms: before the first confirmation the k-th unsolicited response is 4 bytes long and
+   carries sequence number k mod 16 *)
+Fixpoint unsol_txs (l : list item) : list (list N) :=
+  match l with
+  | [] => []
+  | IOb (OTx _ b) :: r => if is_unsol b then b :: unsol_txs r else unsol_txs r
+  | _ :: r => unsol_txs r
+  end.
+
+Fixpoint null_seq (q : N) (l : list (list N)) : Prop :=
+  match l with
+  | [] => True
+  | b :: r => length b = 4%nat /\ nth 0 b 0 = 240 + q /\ null_seq (seq16_next q) r
+  end.
+
+Definition no_confirm (l : list item) : Prop := forall q, ~ In (IOb (OInfo (IUnsolConfirmed q))) l.
+Definition no_fuel (l : list item) : Prop := ~ In (IOb OOutOfFuel) l.
+
+Lemma null_mon_seq : forall l q,
+  mrun null_mon (false, q) l <> Bad -> no_confirm l -> no_fuel l -> null_seq q (unsol_txs l).
+Proof.
+  induction l as [|x r IH]; intros q H Hc Hf; [exact I|].
+  assert (Hc' : no_confirm r) by (intros z Hz; apply (Hc z); right; exact Hz).
+  assert (Hf' : no_fuel r) by (intros Hz; apply Hf; right; exact Hz).
+  destruct x as [t ev|o]; [apply IH; assumption|].
+  destruct o; try (apply IH; assumption).
+  - cbn [unsol_txs]. cbn [mrun null_mon] in H. destruct (is_unsol bytes); [|apply IH; assumption].
+    destruct (_ && _) eqn:E; [|contradiction H; reflexivity].
+    apply andb_true_iff in E. destruct E as [E1 E2]. apply Nat.eqb_eq in E1. apply N.eqb_eq in E2.
+    split; [exact E1|]. split; [exact E2|]. apply IH; assumption.
+  - destruct i; try (apply IH; assumption). exfalso. apply (Hc ecsn). left. reflexivity.
+  - exfalso. apply Hf. left. reflexivity.
+Qed.
+
+Lemma mrun_prefix : forall (M : Type) (f : M -> item -> option M) m l1 l2,
+  mrun f m (l1 ++ l2) <> Bad -> mrun f m l1 <> Bad.
+Proof. intros M f m l1 l2 H E. apply H. rewrite mrun_app, E. reflexivity. Qed.
+
+Theorem null_until_confirmed : forall cfg s tr pre post,
+  Trace cfg s tr -> tr = pre ++ post -> no_confirm pre -> no_fuel pre ->
+  null_seq 0 (unsol_txs pre).
+Proof.
+  intros cfg s tr pre post Ht -> Hc Hf. apply null_mon_seq; [|exact Hc|exact Hf].
+  eapply mrun_prefix. eapply null_until_confirmed_mon. exact Ht.
+Qed.
+
+(* the state side: an empty response is never retried, and it is what a session in NullRequired waits for *)
+Theorem null_never_retried : forall cfg s tr r ret dl,
+  Trace cfg s tr -> s_control s = CUnsolWait r true ret dl ->
+  ret = Some 0%nat /\ r_size r = 0%nat /\ s_unsol s = UNullRequired.
+Proof.
+  intros cfg s tr r ret dl Ht Hc. apply trace_inv in Ht. destruct Ht as [_ Hw]. rewrite Hc in Hw.
+  destruct Hw as (_ & _ & H). exact H.
 Qed.
